@@ -77,6 +77,16 @@ Theorem C14_retransmit_prefix : forall ts t0 ids j0 js T fuel n,
 Proof. exact retransmit_prefix. Qed.
 Print Assumptions C14_retransmit_prefix.
 
+(* Giving up discards what was queued in EVERY state — on a first handshake and
+   on a re-handshake while the zero-key-material timer of an earlier session is
+   still pending alike (the flush comes before the timer test in the code). *)
+Theorem C14_giveup_always_discards : forall s d jr jn,
+  pending (tm_retransmit s) = true -> MaxTimerHandshakes < attempts s ->
+  snd (fire d jr jn TRetransmit s) = [] /\ staged (fst (fire d jr jn TRetransmit s)) = [] /\
+  pending (tm_zero (fst (fire d jr jn TRetransmit s))) = active s || pending (tm_zero s).
+Proof. exact giveup_always_discards. Qed.
+Print Assumptions C14_giveup_always_discards.
+
 (* Fault: Bind.Send returns an error for a retransmission.  It is an attempt all
    the same (lastSentHandshake, attempt counter and the retransmit timer are set
    as for a transmitted one): the next initiation follows 5 s + jitter after it. *)
